@@ -692,6 +692,11 @@ impl Vm {
     fn run_without_cleanup(&mut self, ctx: &mut ExecutionContext) -> Result<InterpreterResult> {
         let mut result_last_statement = None;
         while !self.is_at_the_end() {
+            #[cfg(feature = "verif-hooks")]
+            if let Some(kind) = crate::verif::on_step() {
+                return Err(Box::new(self.runtime_error(kind)));
+            }
+
             self.debug();
 
             let op = unsafe { std::mem::transmute::<u8, Op>(self.read_byte()) };
